@@ -86,7 +86,9 @@ def run(ctx):
     ctx.ob("K1", F, "StreamEncoder", "encoder.ce <- pipe_ce", ok, "" if ok else f"{[a.v for a in ce]}")
     fx = fx_of(ctx, F, "StreamDecoder")
     ce = [a for a in fx.find(domain="comb") if a.t.endswith(".ce")]
-    ok = len(ce) == 1 and ce[0].v == "self.pipe_ce" and ce[0].t == "decoders[i].ce" and any(it == "range(nwords)" for _, it in ce[0].loops)
+    import re as _re1
+    ok = len(ce) == 1 and ce[0].v == "self.pipe_ce" and bool(_re1.fullmatch(r"decoders\[\w+\]\.ce", ce[0].t)) and \
+        any(it in ("range(nwords)", "decoders", "enumerate(decoders)") for _, it in ce[0].loops) and not ce[0].guards
     ctx.ob("K1", F, "StreamDecoder", "every decoder's ce <- pipe_ce", ok, "" if ok else f"{[(a.t, a.v) for a in ce]}")
     # latency declared for the valid pipeline = register depth of the wrapped coder (2 stages + output register / 1)
     for cls, base in (("StreamEncoder", "stream.PipelinedActor"), ("StreamDecoder", "stream.PipelinedActor")):
@@ -338,7 +340,13 @@ def _k5(ctx):
                               ("self.source.d", 8, "decoders.d", 0)]}
     for cls, rows in want.items():
         fx = fx_of(ctx, F, cls)
-        lanes = [a for a in fx.find(domain="comb") if a.loops and any(it.startswith("range(") for _, it in a.loops)]
+        def _lane_index(a):
+            """the lane index variable of a per-lane statement: `i in range(n)` or `(i, x) in enumerate(xs)`"""
+            var, it = a.loops[-1]
+            if it.startswith("enumerate(") and var.startswith("("):
+                return var.strip("()").split(",")[0].strip()
+            return var
+        lanes = [a for a in fx.find(domain="comb") if a.loops and any(it.startswith(("range(", "enumerate(")) for _, it in a.loops)]
         for tb, tw, vb, vw in rows:
             def side(text, iv, base, w):
                 if w == 0:
@@ -349,7 +357,7 @@ def _k5(ctx):
                 return ln == (base, w)
             hit = []
             for a in lanes:
-                iv = a.loops[-1][0]
+                iv = _lane_index(a)
                 if (side(a.t, iv, tb, tw) or (tw and (_lane(a.t, iv) or ("", 0))[0] == tb) or (not tw and a.t.startswith(tb.split(".")[0] + "[") and
                                                                                          a.t.endswith("." + tb.split(".")[1]))):
                     hit.append((a, iv))
